@@ -1,6 +1,8 @@
 (* C02 -- proofs about the operator model Mep/OpsDefs.v *)
 From Coq Require Import ZArith List Bool Arith Lia ZifyBool.
+Local Ltac c02_scan0 := idtac. (* separates the Require lines for the dependency scanner of lib/vv.py *)
 From VV Require Import Base.F64 Mep.Genome Mep.Draws Mep.OpsDefs.
+Local Ltac c02_scan1 := idtac.
 Import ListNotations.
 Local Open Scope Z_scope.
 
@@ -57,3 +59,532 @@ Proof.
   apply mut_loop_zero in E. inversion E. subst. mret H. inversion H. subst.
   cbn [fst snd]. split; [|reflexivity]. destruct i. reflexivity.
 Qed.
+
+(* ====================================================== well-formedness *)
+Local Open Scope nat_scope.
+
+Lemma forallb_seq (f : nat -> bool) n :
+  forallb f (seq 0 n) = true <-> forall i, i < n -> f i = true.
+Proof.
+  rewrite forallb_forall. split; intros H i Hi.
+  - apply H. apply in_seq. lia.
+  - apply in_seq in Hi. apply H. lia.
+Qed.
+
+Definition cells_ok (ss : sset) (patch : nat) (g : genome) : Prop :=
+  forall r c, r < rows g -> c < cats g ->
+    exists ge, cell g r c = Some ge /\ gene_ok_b ss (rows g) (cats g) patch r c ge = true.
+
+Lemma ind_ok_iff ss patch g :
+  ind_ok_b ss patch g = true <->
+  (1 <= patch < rows g /\ cats g = ss_cats ss /\ cells_ok ss patch g /\ inside_b g (best g) = true).
+Proof.
+  unfold ind_ok_b. rewrite !andb_true_iff, forallb_seq.
+  rewrite Nat.leb_le, Nat.ltb_lt, Nat.eqb_eq. unfold cells_ok. split.
+  - intros [[[[H1 H2] H3] H4] H5]. split; [split; assumption|]. split; [assumption|]. split; [|assumption].
+    intros r c Hr Hc. specialize (H4 r Hr). rewrite forallb_seq in H4. specialize (H4 c Hc).
+    destruct (cell g r c) as [ge|]; [eauto|discriminate].
+  - intros [[H1 H2] [H3 [H4 H5]]]. split; [|assumption]. split; [split; [split; assumption|assumption]|].
+    intros r Hr. rewrite forallb_seq. intros c Hc. destruct (H4 r c Hr Hc) as (ge & -> & Hg). exact Hg.
+Qed.
+
+Lemma set_cell_ok ss patch g r c ge :
+  ind_ok_b ss patch g = true -> r < rows g -> c < cats g ->
+  gene_ok_b ss (rows g) (cats g) patch r c ge = true ->
+  ind_ok_b ss patch (set_cell g r c ge) = true.
+Proof.
+  rewrite !ind_ok_iff. intros (H1 & H2 & H3 & H4) Hr Hc Hg. cbn [set_cell put_cell rows cats best].
+  repeat split; auto; try lia.
+  unfold cells_ok in *. cbn [set_cell put_cell cell rows cats] in *. intros r' c' Hr' Hc'.
+  destruct (Nat.eqb r' r && Nat.eqb c' c) eqn:E.
+  - apply andb_true_iff in E. destruct E as [E1 E2]. apply Nat.eqb_eq in E1, E2. subst r' c'. exists ge. split; [reflexivity|exact Hg].
+  - apply H3; assumption.
+Qed.
+
+Lemma set_best_ok ss patch g l :
+  ind_ok_b ss patch g = true -> inside_b g l = true -> ind_ok_b ss patch (set_best g l) = true.
+Proof.
+  rewrite !ind_ok_iff. intros (H1 & H2 & H3 & H4) Hl. cbn [set_best rows cats best]. repeat split; auto; lia.
+Qed.
+
+(* ------------------------------------------------------------ symbol set *)
+Definition sym_good (ss : sset) (c : nat) (s : sym) : Prop :=
+  sym_in_b ss s = true /\ s_cat s = c /\ forallb (fun ac => Nat.ltb ac (ss_cats ss)) (s_argcats s) = true.
+
+Lemma list_eqb_refl {A} (eqb : A -> A -> bool) (l : list A) :
+  (forall x, eqb x x = true) -> list_eqb eqb l l = true.
+Proof. intros H. induction l; cbn; [reflexivity|]. rewrite H, IHl. reflexivity. Qed.
+
+Lemma sym_same_refl s : sym_same_b s s = true.
+Proof.
+  unfold sym_same_b. rewrite Nat.eqb_refl, (list_eqb_refl Nat.eqb), Bool.eqb_reflx by apply Nat.eqb_refl.
+  reflexivity.
+Qed.
+
+Lemma sym_in_self ss s : In s (all_syms ss) -> sym_in_b ss s = true.
+Proof.
+  intros H. unfold sym_in_b. apply existsb_exists. exists s. split; [exact H|].
+  rewrite Z.eqb_refl, sym_same_refl. reflexivity.
+Qed.
+
+Lemma nth_in_concat {A} (l : list (list A)) c e : In e (nth c l []) -> In e (concat l).
+Proof.
+  intros H. destruct (Nat.lt_ge_cases c (length l)) as [Hc|Hc].
+  - apply in_concat. exists (nth c l []). split; [apply nth_In; exact Hc|exact H].
+  - rewrite nth_overflow in H by exact Hc. destruct H.
+Qed.
+
+Lemma wheel_pick_in w : forall slot s, wheel_pick w slot = Some s -> exists wt, In (s, wt) w.
+Proof.
+  induction w as [|[s0 wt0] w IH]; intros slot s H; cbn in H; [discriminate|].
+  destruct (slot <? wt0)%Z.
+  - inversion H. subst. exists wt0. left. reflexivity.
+  - destruct (IH _ _ H) as [wt Hw]. exists wt. right. exact Hw.
+Qed.
+
+(* the wheel returns the symbol whose wedge contains the slot *)
+Lemma wheel_pick_some w : forall slot, Forall (fun e => (0 <= snd e)%Z) w ->
+  (0 <= slot < wheel_sum w)%Z -> exists s, wheel_pick w slot = Some s.
+Proof.
+  unfold wheel_sum. induction w as [|[s0 wt0] w IH]; intros slot Hw Hs; cbn in *; [lia|].
+  inversion Hw as [|? ? H0 Hw']. subst. cbn in H0.
+  destruct (slot <? wt0)%Z eqn:E; [eauto|]. apply IH; [exact Hw'|lia].
+Qed.
+
+Lemma wheel_roulette_in w ds s ds' : wheel_roulette w ds = Some (s, ds') -> exists wt, In (s, wt) w.
+Proof.
+  unfold wheel_roulette. intros H. mbind H.
+  destruct (wheel_pick w a) eqn:Ep; [|discriminate]. mret H. inversion H. subst. eapply wheel_pick_in. exact Ep.
+Qed.
+
+Section WithSset.
+Variable ss : sset.
+Hypothesis Hss : wf_sset_b ss = true.
+
+Lemma wf_sset_cats : 1 <= ss_cats ss.
+Proof.
+  unfold wf_sset_b in Hss. rewrite !andb_true_iff in Hss. destruct Hss as [[[[H _] _] _] _].
+  apply Nat.leb_le in H. exact H.
+Qed.
+
+Lemma wf_sset_fun c e : c < ss_cats ss -> In e (funs_of ss c) ->
+  sym_good ss c (fst e) /\ is_terminal (fst e) = false.
+Proof.
+  intros Hc He. unfold wf_sset_b in Hss. rewrite !andb_true_iff in Hss.
+  destruct Hss as [[[[_ _] _] H] _]. rewrite forallb_seq in H. specialize (H c Hc).
+  apply andb_true_iff in H. destruct H as [H _]. rewrite forallb_forall in H. specialize (H e He).
+  rewrite !andb_true_iff in H. destruct H as [[[H1 H2] H3] _]. apply Nat.eqb_eq in H1.
+  split; [|destruct (is_terminal (fst e)); [discriminate|reflexivity]].
+  split; [|split; assumption].
+  apply sym_in_self. unfold all_syms. apply in_map. apply in_or_app. left.
+  eapply nth_in_concat. exact He.
+Qed.
+
+Lemma wf_sset_term c e : c < ss_cats ss -> In e (terms_of ss c) ->
+  sym_good ss c (fst e) /\ is_terminal (fst e) = true.
+Proof.
+  intros Hc He. unfold wf_sset_b in Hss. rewrite !andb_true_iff in Hss.
+  destruct Hss as [[[[_ _] _] H] _]. rewrite forallb_seq in H. specialize (H c Hc).
+  apply andb_true_iff in H. destruct H as [_ H]. rewrite forallb_forall in H. specialize (H e He).
+  rewrite !andb_true_iff in H. destruct H as [[H1 H2] _]. apply Nat.eqb_eq in H1.
+  split; [|exact H2].
+  split; [|split; [assumption|]].
+  - apply sym_in_self. unfold all_syms. apply in_map. apply in_or_app. right.
+    eapply nth_in_concat. exact He.
+  - unfold is_terminal in H2. destruct (s_argcats (fst e)); [reflexivity|discriminate].
+Qed.
+
+(* symbol_set::roulette(c) returns a symbol of category c;
+   roulette_terminal(c) a terminal of category c *)
+Lemma roulette_terminal_ok c ds s ds' : c < ss_cats ss ->
+  roulette_terminal ss c ds = Some (s, ds') -> sym_good ss c s /\ is_terminal s = true.
+Proof.
+  intros Hc H. apply wheel_roulette_in in H. destruct H as [wt H].
+  apply (wf_sset_term c (s, wt) Hc H).
+Qed.
+
+Lemma roulette_ok c ds s ds' : c < ss_cats ss -> roulette ss c ds = Some (s, ds') -> sym_good ss c s.
+Proof.
+  intros Hc H. unfold roulette in H. mbind H.
+  destruct (a && negb match funs_of ss c with [] => true | _ :: _ => false end).
+  - apply wheel_roulette_in in H. destruct H as [wt H]. apply (wf_sset_fun c (s, wt) Hc H).
+  - apply wheel_roulette_in in H. destruct H as [wt H]. apply (wf_sset_term c (s, wt) Hc H).
+Qed.
+
+(* ------------------------------------------------------- gene producers *)
+Lemma gene_of_terminal_inv t ds ge ds' : gene_of_terminal t ds = Some (ge, ds') ->
+  g_sym ge = t /\ g_args ge = [].
+Proof.
+  unfold gene_of_terminal. destruct (s_parametric t); intros H.
+  - mbind H. mret H. inversion H. subst. split; reflexivity.
+  - mret H. inversion H. subst. split; reflexivity.
+Qed.
+
+Lemma draw_args_inv n from sup : (0 <= from)%Z -> forall ds l ds', draw_args n from sup ds = Some (l, ds') ->
+  length l = n /\ Forall (fun a => (from <= Z.of_nat a < sup)%Z) l.
+Proof.
+  intros H0. induction n as [|n IH]; intros ds l ds' H; cbn [draw_args] in H.
+  - mret H. inversion H. subst. split; [reflexivity|constructor].
+  - mbind H. mbind H. mret H. inversion H. subst. destruct (IH _ _ _ E0) as [Hl Hf].
+    apply between_inv in E. split; [cbn [length]; rewrite Hl; reflexivity|]. constructor; [|exact Hf].
+    rewrite Z2Nat.id; lia.
+Qed.
+
+Lemma terminal_arity s : is_terminal s = true -> s_argcats s = [].
+Proof. unfold is_terminal. destruct (s_argcats s); [reflexivity|discriminate]. Qed.
+
+Lemma gene_random_inv s from sup ds ge ds' : (0 <= from)%nat ->
+  gene_random s from sup ds = Some (ge, ds') ->
+  g_sym ge = s /\ length (g_args ge) = arity s /\ Forall (fun a => from <= a < sup) (g_args ge).
+Proof.
+  intros _. unfold gene_random. destruct (is_terminal s) eqn:Et; intros H.
+  - apply gene_of_terminal_inv in H. destruct H as [H1 H2]. rewrite H2. unfold arity.
+    rewrite (terminal_arity _ Et). repeat split; auto.
+  - mbind H. mret H. inversion H. subst. cbn [g_sym g_args]. apply draw_args_inv in E; [|lia].
+    destruct E as [E1 E2]. repeat split; auto.
+    eapply Forall_impl; [|exact E2]. cbn. intros x Hx. lia.
+Qed.
+
+Lemma gene_ok_intro R C patch r c ge :
+  sym_good ss c (g_sym ge) -> C = ss_cats ss ->
+  length (g_args ge) = arity (g_sym ge) ->
+  Forall (fun a => r < a < R) (g_args ge) ->
+  (R - patch <= r -> is_terminal (g_sym ge) = true) ->
+  gene_ok_b ss R C patch r c ge = true.
+Proof.
+  intros (H1 & H2 & H3) -> H4 H5 H6. unfold gene_ok_b. rewrite H1, H2, H4, H3, !Nat.eqb_refl. cbn [andb].
+  apply andb_true_iff. split.
+  - rewrite andb_true_r. apply forallb_forall. intros a Ha. rewrite Forall_forall in H5. specialize (H5 a Ha).
+    apply andb_true_iff. split; apply Nat.ltb_lt; lia.
+  - destruct (Nat.leb (R - patch) r) eqn:E; [|reflexivity]. apply H6. apply Nat.leb_le. exact E.
+Qed.
+
+Lemma new_gene_ok R patch r c ds ge ds' :
+  c < ss_cats ss -> new_gene ss R patch r c ds = Some (ge, ds') ->
+  gene_ok_b ss R (ss_cats ss) patch r c ge = true.
+Proof.
+  intros Hc H. unfold new_gene in H. destruct (Nat.ltb r (R - patch)) eqn:E.
+  - apply Nat.ltb_lt in E. mbind H. apply (roulette_ok c _ _ _ Hc) in E0.
+    apply gene_random_inv in H; [|lia]. destruct H as (H1 & H2 & H3).
+    apply gene_ok_intro.
+    + rewrite H1. exact E0.
+    + reflexivity.
+    + rewrite H1. exact H2.
+    + eapply Forall_impl; [|exact H3]. cbn. intros. lia.
+    + intros. lia.
+  - apply Nat.ltb_ge in E. mbind H. apply (roulette_terminal_ok c _ _ _ Hc) in E0. destruct E0 as [E1 E2].
+    apply gene_of_terminal_inv in H. destruct H as [H1 H2].
+    apply gene_ok_intro.
+    + rewrite H1. exact E1.
+    + reflexivity.
+    + rewrite H2, H1. unfold arity. rewrite (terminal_arity _ E2). reflexivity.
+    + rewrite H2. constructor.
+    + intros _. rewrite H1. exact E2.
+Qed.
+End WithSset.
+
+(* ----------------------------------------------------------- foldM lemmas *)
+Lemma foldM_inv {S A} (f : S -> A -> M S) (P : S -> Prop) (l : list A) :
+  (forall s a ds s' ds', In a l -> P s -> f s a ds = Some (s', ds') -> P s') ->
+  forall s ds s' ds', P s -> foldM f l s ds = Some (s', ds') -> P s'.
+Proof.
+  induction l as [|a l IH]; intros Hf s ds s' ds' Hs H; cbn [foldM] in H.
+  - mret H. inversion H. subst. exact Hs.
+  - mbind H. eapply IH; [|eapply (Hf s a); [left; reflexivity|exact Hs|exact E]|exact H].
+    intros. eapply Hf; eauto. right. assumption.
+Qed.
+
+Lemma pair_in_dec (x : nat * nat) l : {In x l} + {~ In x l}.
+Proof. apply in_dec. decide equality; apply Nat.eq_dec. Qed.
+
+(* a loop whose step sets cell [rc] to a gene satisfying [Q rc] fills exactly
+   the cells it visits *)
+Lemma foldM_fill (f : genome -> nat * nat -> M genome) (Q : nat * nat -> gene -> Prop) :
+  (forall g rc ds g' ds', f g rc ds = Some (g', ds') ->
+     exists ge, Q rc ge /\ g' = set_cell g (fst rc) (snd rc) ge) ->
+  forall l g ds g' ds', foldM f l g ds = Some (g', ds') ->
+    rows g' = rows g /\ cats g' = cats g /\ best g' = best g /\
+    forall r c, (In (r, c) l -> exists ge, cell g' r c = Some ge /\ Q (r, c) ge) /\
+                (~ In (r, c) l -> cell g' r c = cell g r c).
+Proof.
+  intros Hf. induction l as [|a l IH]; intros g ds g' ds' H; cbn [foldM] in H.
+  - mret H. inversion H. subst. repeat split; auto. intros [].
+  - mbind H. destruct (Hf _ _ _ _ _ E) as (ge & Hq & ->).
+    destruct (IH _ _ _ _ H) as (H1 & H2 & H3 & H4). cbn [set_cell put_cell rows cats best] in *.
+    repeat split; auto.
+    + intros Hin. destruct (pair_in_dec (r, c) l) as [Hl|Hl]; [apply H4; exact Hl|].
+      destruct Hin as [->|Hin]; [|contradiction].
+      exists ge. split; [|exact Hq]. rewrite (proj2 (H4 r c) Hl). cbn [set_cell put_cell cell fst snd].
+      rewrite !Nat.eqb_refl. reflexivity.
+    + intros Hn. rewrite (proj2 (H4 r c)) by (intros Hl; apply Hn; right; exact Hl).
+      cbn [set_cell put_cell cell]. destruct (Nat.eqb r (fst a) && Nat.eqb c (snd a)) eqn:Ee; [|reflexivity].
+      apply andb_true_iff in Ee. destruct Ee as [E1 E2]. apply Nat.eqb_eq in E1, E2.
+      exfalso. apply Hn. left. destruct a. cbn in *. subst. reflexivity.
+Qed.
+
+Lemma in_all_loci R C r c : In (r, c) (all_loci R C) <-> r < R /\ c < C.
+Proof.
+  unfold all_loci. rewrite in_flat_map. split.
+  - intros (x & Hx & Hin). apply in_map_iff in Hin. destruct Hin as (y & Hy & Hin). inversion Hy. subst.
+    apply in_seq in Hx, Hin. lia.
+  - intros [Hr Hc]. exists r. split; [apply in_seq; lia|]. apply in_map. apply in_seq. lia.
+Qed.
+
+(* ------------------------------------------------- random construction *)
+Section Ops.
+Variable ss : sset.
+Hypothesis Hss : wf_sset_b ss = true.
+
+Lemma random_ind_wf R patch ds i ds' :
+  random_ind ss R patch ds = Some (i, ds') ->
+  ind_ok_b ss patch (i_gen i) = true /\ rows (i_gen i) = R /\ i_age i = 0%N.
+Proof.
+  unfold random_ind. destruct (Nat.leb 1 patch && Nat.ltb patch R && Nat.leb 1 (ss_cats ss)) eqn:Epre; [|discriminate].
+  rewrite !andb_true_iff in Epre. destruct Epre as [[P1 P2] P3].
+  apply Nat.leb_le in P1, P3. apply Nat.ltb_lt in P2.
+  intros H. mbind H. mbind H. mret H. inversion H. subst. cbn [i_gen i_age]. clear H.
+  pose (Q := fun (rc : nat * nat) ge =>
+     fst rc < R -> snd rc < ss_cats ss -> gene_ok_b ss R (ss_cats ss) patch (fst rc) (snd rc) ge = true).
+  assert (HQ : forall g rc dx g' dx', fill_cell ss R patch g rc dx = Some (g', dx') ->
+            exists ge, Q rc ge /\ g' = set_cell g (fst rc) (snd rc) ge).
+  { intros g rc dx g' dx' Hf. unfold fill_cell in Hf. mbind Hf. mret Hf. inversion Hf. subst.
+    eexists. split; [|reflexivity]. intros Hr Hc. eapply new_gene_ok; eauto. }
+  destruct (foldM_fill _ Q HQ _ _ _ _ _ E0) as (H1 & H2 & H3 & H4).
+  cbn [empty_genome rows cats best] in *. split; [|split; [exact H1|reflexivity]].
+  apply ind_ok_iff. rewrite H1, H2, H3. repeat split; try lia.
+  - intros r c Hr Hc. rewrite H1 in Hr. rewrite H2 in Hc.
+    destruct (proj1 (H4 r c)) as (ge & Hg & Hq); [apply in_all_loci; lia|].
+    exists ge. split; [exact Hg|]. rewrite H1, H2. apply Hq; assumption.
+  - unfold inside_b. rewrite ?H1, ?H2, ?H3. cbn [l_index l_cat]. apply andb_true_iff. split; apply Nat.ltb_lt; lia.
+Qed.
+
+(* ------------------------------------------------------------ mutation *)
+Lemma set_insert_in l s x : In x (set_insert l s) -> x = l \/ In x s.
+Proof.
+  induction s as [|y s IH]; cbn [set_insert].
+  - intros [->|[]]. left. reflexivity.
+  - destruct (locus_ltb l y).
+    + intros [->|H]; [left; reflexivity|right; exact H].
+    + destruct (locus_eqb l y).
+      * intros H. right. exact H.
+      * intros [->|H]; [right; left; reflexivity|]. destruct (IH H) as [->|H']; [left; reflexivity|right; right; exact H'].
+Qed.
+
+Lemma set_union_in ls : forall s x, In x (set_union ls s) -> In x ls \/ In x s.
+Proof.
+  unfold set_union. induction ls as [|l ls IH]; intros s x H; cbn [fold_left] in H.
+  - right. exact H.
+  - destruct (IH _ _ H) as [H1|H1]; [left; right; exact H1|].
+    destruct (set_insert_in _ _ _ H1) as [->|H2]; [left; left; reflexivity|right; exact H2].
+Qed.
+
+Lemma arguments_in ge al : In al (arguments ge) ->
+  In (l_index al) (g_args ge) /\ In (l_cat al) (s_argcats (g_sym ge)).
+Proof.
+  unfold arguments. intros H. apply in_map_iff in H. destruct H as ([a c] & <- & H). cbn.
+  split; [eapply in_combine_l|eapply in_combine_r]; exact H.
+Qed.
+
+Lemma gene_ok_args R C patch r c ge al :
+  gene_ok_b ss R C patch r c ge = true -> In al (arguments ge) ->
+  r < l_index al < R /\ l_cat al < C.
+Proof.
+  unfold gene_ok_b. rewrite !andb_true_iff. intros [[[[_ _] Ha] Hc] _] Hin.
+  apply arguments_in in Hin. destruct Hin as [H1 H2].
+  rewrite forallb_forall in Ha, Hc. specialize (Ha _ H1). specialize (Hc _ H2).
+  apply andb_true_iff in Ha. destruct Ha as [Ha1 Ha2]. apply Nat.ltb_lt in Ha1, Ha2, Hc. lia.
+Qed.
+
+Lemma gene_at_inside g l ge : gene_at g l = Some ge ->
+  l_index l < rows g /\ l_cat l < cats g /\ cell g (l_index l) (l_cat l) = Some ge.
+Proof.
+  unfold gene_at. destruct (Nat.ltb (l_index l) (rows g) && Nat.ltb (l_cat l) (cats g)) eqn:E; [|discriminate].
+  apply andb_true_iff in E. destruct E as [E1 E2]. apply Nat.ltb_lt in E1, E2. auto.
+Qed.
+
+Definition inside (g : genome) (l : locus) : Prop := l_index l < rows g /\ l_cat l < cats g.
+
+Lemma mut_loop_wf patch pgm fuel : forall g loci n ds g' n' ds',
+  ind_ok_b ss patch g = true -> Forall (inside g) loci ->
+  mut_loop fuel ss patch pgm g loci n ds = Some ((g', n'), ds') ->
+  ind_ok_b ss patch g' = true /\ rows g' = rows g /\ cats g' = cats g /\ best g' = best g.
+Proof.
+  induction fuel as [|f IH]; intros g loci n ds g' n' ds' Hg Hl H; [discriminate|].
+  cbn [mut_loop] in H. destruct loci as [|l rest].
+  - mret H. inversion H. subst. auto.
+  - inversion Hl as [|? ? [Hl1 Hl2] Hrest]. subst. mbind H. mbind H.
+    assert (Hstep : ind_ok_b ss patch (fst a0) = true /\ rows (fst a0) = rows g /\ cats (fst a0) = cats g
+                    /\ best (fst a0) = best g).
+    { destruct a.
+      - mbind E0. destruct (gene_at g l) as [old|]; [|discriminate].
+        destruct (gene_eqb old a); mret E0; inversion E0; subst; cbn [fst]; auto.
+        split; [|auto]. apply set_cell_ok; auto.
+        pose proof (proj1 (ind_ok_iff _ _ _) Hg) as (_ & Hc & _). rewrite Hc.
+        eapply new_gene_ok; eauto. rewrite <- Hc. exact Hl2.
+      - mret E0. inversion E0. subst. auto. }
+    destruct Hstep as (S1 & S2 & S3 & S4).
+    destruct (gene_at (fst a0) l) as [cur|] eqn:Ecur; [|discriminate].
+    apply IH in H; auto.
+    + destruct H as (K1 & K2 & K3 & K4). rewrite K2, K3, K4. auto.
+    + apply Forall_forall. intros x Hx. apply set_union_in in Hx. destruct Hx as [Hx|Hx].
+      * apply gene_at_inside in Ecur. destruct Ecur as (C1 & C2 & C3).
+        pose proof (proj1 (ind_ok_iff _ _ _) S1) as (_ & _ & Hcells & _).
+        destruct (Hcells _ _ C1 C2) as (ge & Hge & Hok). rewrite C3 in Hge. inversion Hge. subst ge.
+        destruct (gene_ok_args _ _ _ _ _ _ _ Hok Hx). unfold inside. lia.
+      * rewrite Forall_forall in Hrest. specialize (Hrest _ Hx). unfold inside in *. rewrite S2, S3. exact Hrest.
+Qed.
+
+Lemma best_inside patch g : ind_ok_b ss patch g = true -> inside g (best g).
+Proof.
+  intros H. apply ind_ok_iff in H. destruct H as (_ & _ & _ & H). unfold inside_b in H.
+  apply andb_true_iff in H. destruct H as [H1 H2]. apply Nat.ltb_lt in H1, H2. split; assumption.
+Qed.
+
+Lemma mutation_wf patch pgm i ds i' n ds' :
+  ind_ok_b ss patch (i_gen i) = true -> mutation ss patch pgm i ds = Some (i', n, ds') ->
+  ind_ok_b ss patch (i_gen i') = true /\ rows (i_gen i') = rows (i_gen i) /\ cats (i_gen i') = cats (i_gen i) /\
+  best (i_gen i') = best (i_gen i) /\ i_age i' = i_age i /\ i_xt i' = i_xt i.
+Proof.
+  intros Hg H. unfold mutation in H. mbind H. mret H. inversion H. subst. destruct a as [g' k].
+  apply mut_loop_wf in E; auto.
+  - cbn [with_gen i_gen i_age i_xt fst]. destruct E as (E1 & E2 & E3 & E4). auto 10.
+  - constructor; [|constructor]. eapply best_inside. exact Hg.
+Qed.
+
+(* ----------------------------------------------------------- crossover *)
+Definition prov (t from to0 : genome) : Prop :=
+  rows t = rows to0 /\ cats t = cats to0 /\ best t = best to0 /\
+  forall r c, cell t r c = cell from r c \/ cell t r c = cell to0 r c.
+
+Lemma prov_refl from to0 : prov to0 from to0.
+Proof. unfold prov. auto. Qed.
+
+Lemma copy_cell_prov from to0 t r c : prov t from to0 -> prov (copy_cell from t r c) from to0.
+Proof.
+  intros (H1 & H2 & H3 & H4). unfold prov, copy_cell, put_cell. cbn [rows cats best cell].
+  repeat split; auto. intros r' c'. destruct (Nat.eqb r' r && Nat.eqb c' c) eqn:E; [|apply H4].
+  apply andb_true_iff in E. destruct E as [E1 E2]. apply Nat.eqb_eq in E1, E2. subst. left. reflexivity.
+Qed.
+
+Lemma copy_cats_prov from to0 r : forall cs t, prov t from to0 ->
+  prov (fold_left (fun t' c => copy_cell from t' r c) cs t) from to0.
+Proof. induction cs as [|c cs IH]; intros t H; cbn [fold_left]; [exact H|]. apply IH. apply copy_cell_prov. exact H. Qed.
+
+Lemma copy_rows_prov from to0 : forall rs t, prov t from to0 -> prov (copy_rows from t rs) from to0.
+Proof.
+  unfold copy_rows. induction rs as [|r rs IH]; intros t H; cbn [fold_left]; [exact H|].
+  apply IH. apply copy_cats_prov. exact H.
+Qed.
+
+Lemma fold_opt_inv {A S} (F : S -> A -> option S) (P : S -> Prop) :
+  (forall s a s', P s -> F s a = Some s' -> P s') ->
+  forall args acc s', (forall s, acc = Some s -> P s) ->
+  fold_left (fun acc a => match acc with Some s => F s a | None => None end) args acc = Some s' -> P s'.
+Proof.
+  intros HF. induction args as [|a args IH]; intros acc s' Hacc H; cbn [fold_left] in H.
+  - apply Hacc. exact H.
+  - eapply IH; [|exact H]. intros s Hs. destruct acc as [s0|]; [|discriminate].
+    eapply HF; [apply Hacc; reflexivity|exact Hs].
+Qed.
+
+Lemma copy_tree_prov from to0 fuel : forall t l t',
+  prov t from to0 -> copy_tree fuel from t l = Some t' -> prov t' from to0.
+Proof.
+  induction fuel as [|f IH]; intros t l t' Ht H; [discriminate|]. cbn [copy_tree] in H.
+  destruct (gene_at from l) as [ge|] eqn:Eg; [|discriminate].
+  eapply (fold_opt_inv (fun s al => copy_tree f from s al) (fun s => prov s from to0)); [| |exact H].
+  - intros s a s' Hs Hc. eapply IH; eauto.
+  - intros s Hs. inversion Hs. subst s. apply gene_at_inside in Eg. destruct Eg as (_ & _ & Ec).
+    destruct Ht as (H1 & H2 & H3 & H4). unfold prov, set_cell, put_cell. cbn [rows cats best cell].
+    repeat split; auto. intros r' c'. destruct (Nat.eqb r' (l_index l) && Nat.eqb c' (l_cat l)) eqn:E; [|apply H4].
+    apply andb_true_iff in E. destruct E as [E1 E2]. apply Nat.eqb_eq in E1, E2. subst. left. symmetry. exact Ec.
+Qed.
+
+Lemma crossover_genome_prov x from to ds g ds' :
+  crossover_genome x from to ds = Some (g, ds') -> prov g from to.
+Proof.
+  intros H. destruct x; cbn [crossover_genome] in H.
+  - mbind H. mret H. inversion H. subst. apply copy_rows_prov. apply prov_refl.
+  - mbind H. mbind H. mret H. inversion H. subst. apply copy_rows_prov. apply prov_refl.
+  - mbind H. destruct (copy_tree (S (rows from)) from to a) as [t|] eqn:Et; [|discriminate].
+    mret H. inversion H. subst. eapply copy_tree_prov; [apply prov_refl|exact Et].
+  - eapply (foldM_inv (uniform_cell from) (fun t => prov t from to)); [|apply prov_refl|exact H].
+    intros s a ds1 s' ds1' _ Hs Hu. unfold uniform_cell in Hu. mbind Hu. mret Hu. inversion Hu. subst.
+    destruct a0; [apply copy_cell_prov|]; exact Hs.
+Qed.
+
+(* each gene of the offspring is the gene one of the parents has at that
+   position; same size; the age of the older parent *)
+Lemma crossover_spec lhs rhs ds c ds' : crossover lhs rhs ds = Some (c, ds') ->
+  rows (i_gen c) = rows (i_gen lhs) /\ cats (i_gen c) = cats (i_gen lhs) /\
+  rows (i_gen lhs) = rows (i_gen rhs) /\ cats (i_gen lhs) = cats (i_gen rhs) /\
+  (forall r k, cell (i_gen c) r k = cell (i_gen lhs) r k \/ cell (i_gen c) r k = cell (i_gen rhs) r k) /\
+  (best (i_gen c) = best (i_gen lhs) \/ best (i_gen c) = best (i_gen rhs)) /\
+  i_age c = N.max (i_age lhs) (i_age rhs) /\
+  (i_xt c = i_xt lhs \/ i_xt c = i_xt rhs).
+Proof.
+  clear Hss. unfold crossover. intros H.
+  destruct (Nat.eqb (rows (i_gen lhs)) (rows (i_gen rhs)) && Nat.eqb (cats (i_gen lhs)) (cats (i_gen rhs))) eqn:Ed;
+    [|discriminate].
+  apply andb_true_iff in Ed. destruct Ed as [Er Ec]. apply Nat.eqb_eq in Er, Ec.
+  mbind H. mbind H. mret H. inversion H. subst. clear H. cbn [i_gen i_age i_xt].
+  apply crossover_genome_prov in E0. destruct E0 as (H1 & H2 & H3 & H4).
+  destruct a; cbn [i_gen i_age i_xt] in *.
+  - repeat split; auto; try lia; try (intros r k; destruct (H4 r k); auto).
+  - repeat split; auto; try lia; try (intros r k; destruct (H4 r k); auto).
+Qed.
+
+Lemma crossover_wf patch lhs rhs ds c ds' :
+  ind_ok_b ss patch (i_gen lhs) = true -> ind_ok_b ss patch (i_gen rhs) = true ->
+  crossover lhs rhs ds = Some (c, ds') -> ind_ok_b ss patch (i_gen c) = true.
+Proof.
+  clear Hss. intros Hl Hr H. apply crossover_spec in H. destruct H as (H1 & H2 & H3 & H4 & H5 & H6 & _).
+  apply ind_ok_iff in Hl, Hr. destruct Hl as (L1 & L2 & L3 & L4). destruct Hr as (R1 & R2 & R3 & R4).
+  apply ind_ok_iff. repeat split; try lia.
+  - intros r k Hr Hk. rewrite H1 in *. rewrite H2 in *. destruct (H5 r k) as [->| ->].
+    + apply L3; assumption.
+    + rewrite H3, H4. apply R3; lia.
+  - unfold inside_b in *. rewrite H1, H2. destruct H6 as [-> | ->]; [exact L4|]. rewrite H3, H4. exact R4.
+Qed.
+
+(* ------------------------------------------- get_block, replace, destroy *)
+Lemma get_block_wf patch i l :
+  ind_ok_b ss patch (i_gen i) = true -> inside_b (i_gen i) l = true ->
+  ind_ok_b ss patch (i_gen (get_block i l)) = true.
+Proof. intros. unfold get_block. cbn [with_gen i_gen]. apply set_best_ok; assumption. Qed.
+
+(* "a gene compatible with the locus" *)
+Lemma replace_wf patch i l ge :
+  ind_ok_b ss patch (i_gen i) = true -> inside_b (i_gen i) l = true ->
+  gene_ok_b ss (rows (i_gen i)) (cats (i_gen i)) patch (l_index l) (l_cat l) ge = true ->
+  ind_ok_b ss patch (i_gen (replace i l ge)) = true.
+Proof.
+  intros H Hl Hg. unfold replace. cbn [with_gen i_gen]. unfold inside_b in Hl.
+  apply andb_true_iff in Hl. destruct Hl as [L1 L2]. apply Nat.ltb_lt in L1, L2.
+  apply set_cell_ok; assumption.
+Qed.
+
+Lemma destroy_block_wf patch i index ds i' ds' :
+  ind_ok_b ss patch (i_gen i) = true -> destroy_block ss i index ds = Some (i', ds') ->
+  ind_ok_b ss patch (i_gen i') = true /\ rows (i_gen i') = rows (i_gen i) /\ cats (i_gen i') = cats (i_gen i).
+Proof.
+  intros Hg H. unfold destroy_block in H. destruct (Nat.ltb index (rows (i_gen i))) eqn:Ei; [|discriminate].
+  apply Nat.ltb_lt in Ei. mbind H. mret H. inversion H. subst. cbn [with_gen i_gen].
+  eapply (foldM_inv (destroy_cell ss index)
+            (fun g => ind_ok_b ss patch g = true /\ rows g = rows (i_gen i) /\ cats g = cats (i_gen i)));
+    [|split; [exact Hg|split; reflexivity]|exact E].
+  intros s c ds1 s' ds1' Hin (S1 & S2 & S3) Hd. apply in_seq in Hin.
+  unfold destroy_cell in Hd. mbind Hd. mbind Hd. mret Hd. inversion Hd. subst. cbn [set_cell put_cell rows cats].
+  split; [|auto]. pose proof (proj1 (ind_ok_iff _ _ _) S1) as (P1 & P2 & _).
+  assert (Hc : c < ss_cats ss) by lia.
+  apply (roulette_terminal_ok ss Hss c _ _ _ Hc) in E0. destruct E0 as [G1 G2].
+  apply gene_of_terminal_inv in E1. destruct E1 as [T1 T2].
+  apply set_cell_ok; [exact S1|lia|lia|]. rewrite P2. apply gene_ok_intro.
+  - exact Hss.
+  - rewrite T1. exact G1.
+  - reflexivity.
+  - rewrite T2, T1. unfold arity. rewrite (terminal_arity _ G2). reflexivity.
+  - rewrite T2. constructor.
+  - intros _. rewrite T1. exact G2.
+Qed.
+End Ops.
